@@ -1273,7 +1273,10 @@ def _materialise(src):
         exec(top, ns)
     except BaseException:
         pass                    # objects defined before the exception are still there
-    objs = [("code", top), ("source", src)]
+    objs = [("code", top), ("source", src),
+            # dis compiles a source string as an expression when it is one - whatever its layout
+            ("expr-source", "a + b"), ("expr-source", "(a +\n    b[1])"), ("expr-source", "[i for i in a\n if i]\n"),
+            ("expr-source", "lambda q: (q,\n           q)")]
     seen = set()
     for name in sorted(k for k in ns if not k.startswith("__")):
         v = ns[name]
